@@ -170,6 +170,16 @@ def run_case(case):
             model.message_order = saved
         check_marginals(out, 'schedule', model, mu4, P, attrs, float(total))
 
+    # (d) the caller updates the same parameter object in place (theta[cl] += step) and asks again
+    if out.ok and model.cliques:
+        rng = np.random.Generator(np.random.PCG64(case['np_seed'] + 7))
+        cl = model.cliques[case['shift']['which'] % len(model.cliques)]
+        g = rng.standard_normal(size=domain.project(cl).shape)
+        pot[cl] += mbi.Factor(domain.project(cl), g)
+        P5, _ = oracles.joint(attrs, shape, factors + [(list(cl), g)], float(total))
+        mu5 = model.belief_propagation(pot)
+        check_marginals(out, 'after_inplace_update', model, mu5, P5, attrs, float(total))
+
     # classification
     mc = model.cliques
     sep = any(set(a) & set(b) for i, a in enumerate(mc) for b in mc[i + 1:])
